@@ -1,0 +1,13 @@
+//go:build !verif
+
+package hermes
+
+// Probes of the verification harness (build tag `verif`). With the tag off they are empty and inlined away.
+
+func verifDayStartProbe(g *GlobalVarsMain, w *WaterSharedVars, n *NitroSharedVars, c *CropSharedVars, zeit int, wdt float64) {
+}
+func verifAfterWaterProbe(g *GlobalVarsMain, w *WaterSharedVars, zeit, subd int, wdt, steps float64) {}
+func verifAfterNitroProbe(g *GlobalVarsMain, w *WaterSharedVars, n *NitroSharedVars, zeit, subd int, wdt, steps float64) {
+}
+func verifDayEndProbe(g *GlobalVarsMain, w *WaterSharedVars, n *NitroSharedVars, c *CropSharedVars, zeit int) {
+}
